@@ -311,12 +311,13 @@ def native_replay(harness, values, profiles=("dev", "release"), timeout_s=120,
     return out
 
 
-def native_witness_search(crate, harness, seed, iterations, expect, timeout_s=900):
+def native_witness_search(crate, harness, seed, iterations, expect, timeout_s=900,
+                          profile="dev"):
     """Run the harness natively on boundary-biased random inputs until a failure whose message
     contains `expect` shows up. Returns dict(values=[[bytes]] or None, ...)."""
     if crate == "dimacs":
         return dict(values=None, note="no witness search for the dimacs crate")
-    binary, build_log = build_replay("release", crate)
+    binary, build_log = build_replay(profile, crate)
     if binary is None:
         return dict(values=None, note="replay build failed", log=build_log)
     try:
